@@ -180,6 +180,19 @@ if __name__ == '__main__':
     ap.add_argument('--as', dest='as_k', help='store under seeded/<Cxx>-<AS> (round 2 and later)')
     a = ap.parse_args()
     if a.cmd == 'table':
+        if a.pid == 'write':  # tools_seed.py table write: refresh the generated table inside DESIGN.md
+            import contextlib
+            import io
+
+            buf = io.StringIO()
+            with contextlib.redirect_stdout(buf):
+                table()
+            dp = os.path.join(VERIF, 'DESIGN.md')
+            d = open(dp).read()
+            b, e = '<!-- seeded-table:begin (generated by tools_seed.py table) -->\n', '<!-- seeded-table:end -->'
+            i, j = d.index(b) + len(b), d.index(e)
+            open(dp, 'w').write(d[:i] + buf.getvalue() + d[j:])
+            sys.exit(0)
         sys.exit(table())
     if a.cmd == 'recheck':
         sys.exit(recheck(a.pid))
